@@ -128,7 +128,7 @@ type sigT struct {
 var basicLetters = "IisLlbfdmoXvcCwW"
 
 var sigNames = []string{"a", "b", "x1", "Name", "value", "uid", "P0", "A", "a_b", "Z9", "metaObject", "i", "s"}
-var structNames = []string{"S", "Foo", "Point", "List<double>", "Map<K>", "a", "T_1", "MetaMethod", "i"}
+var structNames = []string{"S", "Foo", "Point", "List<double>", "Map<K>", "a", "T_1", "MetaMethod", "i", "MetaObject", "ServiceInfo"}
 
 func genSig(r *Rand, depth int, allow string) *sigT {
 	if depth <= 0 || r.Chance(40) {
